@@ -188,8 +188,10 @@ fn run_case<F: MathFunction + Function<Trace = VmTrace> + Clone>(
         "vars": varmap.iter().map(|(n, i)| json!([n, i])).collect::<Vec<_>>(), "nvars": nvars_total,
         "allvars": b.vars.keys().collect::<Vec<_>>()});
     let wrappers = *id % 2 == 0;
-    let mut emit = |kind: &str, simplified: bool, ok: bool, err: String, got: Value| {
+    let idc = *id;
+    let mut emit = |kind: &str, simplified: bool, ok: bool, err: String, got: Value, seeds: Option<Value>| {
         let mut j = base.clone();
+        if let Some(sd) = seeds { j["seeds"] = sd; }
         j["ev"] = json!("bind");
         j["id"] = json!(*id);
         j["kind"] = json!(kind);
@@ -226,8 +228,8 @@ fn run_case<F: MathFunction + Function<Trace = VmTrace> + Clone>(
                 (false, m) => e.eval_raw(&tape, x, y, z, m, &sv),
             };
             match r {
-                Ok((v, _)) => emit("point", *simplified, true, String::new(), json!([bits(v)])),
-                Err(er) => emit("point", *simplified, false, format!("{er}"), json!([])),
+                Ok((v, _)) => emit("point", *simplified, true, String::new(), json!([bits(v)]), None),
+                Err(er) => emit("point", *simplified, false, format!("{er}"), json!([]), None),
             }
         }
         // interval on the degenerate box
@@ -241,23 +243,27 @@ fn run_case<F: MathFunction + Function<Trace = VmTrace> + Clone>(
                 (false, m) => e.eval_raw(&tape, ix, iy, iz, m, &sv),
             };
             match r {
-                Ok((v, _)) => emit("interval", *simplified, true, String::new(), json!(ibits(&v))),
-                Err(er) => emit("interval", *simplified, false, format!("{er}"), json!([])),
+                Ok((v, _)) => emit("interval", *simplified, true, String::new(), json!(ibits(&v)), None),
+                Err(er) => emit("interval", *simplified, false, format!("{er}"), json!([]), None),
             }
         }
         // many-point, variables as single values and as arrays
         {
             let tape = shape.ez_float_slice_tape();
             let mut e = Shape::<F>::new_float_slice_eval();
-            let (xs, ys, zs) = (vec![x; nsamp], vec![y; nsamp], vec![z; nsamp]);
+            // without a transform, an axis that the function does not read may hold anything (infinity, NaN): the position
+            // is handed to the function as it is, axis by axis
+            let reads = |n: &str| varmap.iter().any(|(t, _)| t == n);     // in the function's variable map at all
+            let wild = |v: f32, n: &str, k: usize| if m4.is_none() && !reads(n) { [f32::INFINITY, f32::NAN, f32::NEG_INFINITY][(idc + k) % 3] } else { v };
+            let (xs, ys, zs) = (vec![wild(x, "X", 0); nsamp], vec![wild(y, "Y", 1); nsamp], vec![wild(z, "Z", 2); nsamp]);
             let r = match (wrappers, m4.as_ref()) {
                 (true, Some(m)) => e.eval_with_transform_and_vars(&tape, &xs, &ys, &zs, m, &sv).map(|o| o.to_vec()),
                 (true, None) => e.eval_with_vars(&tape, &xs, &ys, &zs, &sv).map(|o| o.to_vec()),
                 (false, m) => e.eval_raw(&tape, &xs, &ys, &zs, m, fidget_core::shape::ShapeBulkEval::<F::FloatSliceEval>::var_value(&sv)).map(|o| o.to_vec()),
             };
             match r {
-                Ok(o) => emit("float-values", *simplified, true, String::new(), json!(o.iter().map(|v| bits(*v)).collect::<Vec<_>>())),
-                Err(er) => emit("float-values", *simplified, false, format!("{er}"), json!([])),
+                Ok(o) => emit("float-values", *simplified, true, String::new(), json!(o.iter().map(|v| bits(*v)).collect::<Vec<_>>()), None),
+                Err(er) => emit("float-values", *simplified, false, format!("{er}"), json!([]), None),
             }
             let r = match (wrappers, m4.as_ref()) {
                 (true, Some(m)) => e.eval_with_transform_and_var_arrays(&tape, &xs, &ys, &zs, m, &sva).map(|o| o.to_vec()),
@@ -265,26 +271,34 @@ fn run_case<F: MathFunction + Function<Trace = VmTrace> + Clone>(
                 (false, m) => e.eval_raw(&tape, &xs, &ys, &zs, m, fidget_core::shape::ShapeBulkEval::<F::FloatSliceEval>::var_array(&sva)).map(|o| o.to_vec()),
             };
             match r {
-                Ok(o) => emit("float-arrays", *simplified, true, String::new(), json!(o.iter().map(|v| bits(*v)).collect::<Vec<_>>())),
-                Err(er) => emit("float-arrays", *simplified, false, format!("{er}"), json!([])),
+                Ok(o) => emit("float-arrays", *simplified, true, String::new(), json!(o.iter().map(|v| bits(*v)).collect::<Vec<_>>()), None),
+                Err(er) => emit("float-arrays", *simplified, false, format!("{er}"), json!([]), None),
             }
         }
         // gradient
         {
             let tape = shape.ez_grad_slice_tape();
             let mut e = Shape::<F>::new_grad_slice_eval();
-            let xs = vec![Grad::new(x, 1.0, 0.0, 0.0); 2];
-            let ys = vec![Grad::new(y, 0.0, 1.0, 0.0); 2];
-            let zs = vec![Grad::new(z, 0.0, 0.0, 1.0); 2];
+            // the caller's own derivative seeds (small integers, every other case; the unit axes otherwise): the gradient of
+            // the input transform is applied to them
+            let seeds: [[i64; 3]; 3] = if idc % 4 < 2 { [[1, 0, 0], [0, 1, 0], [0, 0, 1]] } else {
+                let k = idc;
+                [[(k % 5) as i64 - 2, ((k / 5) % 3) as i64 - 1, 2], [0, ((k / 3) % 5) as i64 - 2, -1], [((k / 7) % 3) as i64, 1, ((k / 2) % 5) as i64 - 2]]
+            };
+            let g = |v: f32, sd: [i64; 3]| Grad::new(v, sd[0] as f32, sd[1] as f32, sd[2] as f32);
+            let xs = vec![g(x, seeds[0]); 2];
+            let ys = vec![g(y, seeds[1]); 2];
+            let zs = vec![g(z, seeds[2]); 2];
             let r = match (wrappers, m4.as_ref()) {
                 (true, Some(m)) => e.eval_with_transform_and_vars(&tape, &xs, &ys, &zs, m, &sv).map(|o| o.to_vec()),
                 (true, None) => e.eval_with_vars(&tape, &xs, &ys, &zs, &sv).map(|o| o.to_vec()),
                 (false, m) => e.eval_raw(&tape, &xs, &ys, &zs, m, fidget_core::shape::ShapeBulkEval::<F::GradSliceEval>::var_value(&sv)).map(|o| o.to_vec()),
             };
             match r {
-                Ok(o) => emit("grad", *simplified, true, String::new(), json!(o.iter().map(gbits).collect::<Vec<_>>())),
-                Err(er) => emit("grad", *simplified, false, format!("{er}"), json!([])),
+                Ok(o) => emit("grad", *simplified, true, String::new(), json!(o.iter().map(gbits).collect::<Vec<_>>()), Some(json!(seeds))),
+                Err(er) => emit("grad", *simplified, false, format!("{er}"), json!([]), Some(json!(seeds))),
             }
+
         }
     }
 }
